@@ -32,7 +32,7 @@ KIT_L = [
     'nbdime.diff_format.MappingDiffBuilder.__init__', 'nbdime.diff_format.MappingDiffBuilder.append',
     'nbdime.diff_format.MappingDiffBuilder.validated', 'nbdime.diffing.generic.diff_dicts',
     'nbdime.diff_format.validate_diff_entry', 'nbdime.diff_format.validate_diff_entry#map', 'nbdime.diff_format.validate_diff',
-    'nbdime.diff_format.validate_diff#map', 'nbdime.diffing.generic.diff', 'lemma.roundtrip_generic',
+    'nbdime.diff_format.validate_diff#map', 'lemma.apply_map_nil', 'nbdime.diffing.generic.diff', 'lemma.roundtrip_generic',
 ]
 
 
